@@ -13,7 +13,7 @@ Tbl == Hdr.tbl
 HasPost == \E i \in 1..Len(Sched) : Sched[i].type = POST
 \* every kernel class documents its own messages (Hdr.books[k]: code spelt as a string -> message)
 Msg(k, code) == Hdr.books[k][ToString(code)]
-Codes == {-1, 1, 2}
+Codes == {-1, 1, 2, 200}
 AllMsgs == UNION {{Hdr.books[k][c] : c \in DOMAIN Hdr.books[k]} : k \in 1..KK}
 
 TInit == BatchInit
